@@ -285,6 +285,12 @@ theorem All₂.nil_right {α β : Type} {R : α → β → Prop} {as : List α}
     (h : All₂ R as ([] : List β)) : as = [] := by
   cases h; rfl
 
+theorem All₂.map_eq {α β γ : Type} {R : α → β → Prop} {f : α → γ} {g : β → γ} {as : List α}
+    {bs : List β} (h : All₂ R as bs) (hfg : ∀ a b, R a b → g b = f a) : bs.map g = as.map f := by
+  induction h with
+  | nil => rfl
+  | cons hab _ ih => simp only [List.map_cons, hfg _ _ hab, ih]
+
 /-! ## What a step does to `temp_values` -/
 
 /-- The take phase of a step (in-place candidates, then by-value captures): -/
@@ -307,6 +313,8 @@ structure TakeFacts {V : Type} (ops : Ops V) (r : Run V) (st : St V) (i : Nat) (
     (st2.temps x = none ∧ ∃ v, st.temps x = some v ∧ (x, v) ∈ byVal)
   notaken : taken = [] → ∀ x, x ∉ capDeps r.g op → st2.temps x = st.temps x
   nonempty : taken ≠ [] → ops.inPlaceIdx i ≠ []
+  /-- the taken positions are the candidates' positions (or nothing was taken) -/
+  hpos : taken = [] ∨ taken.map (fun t => t.1) = (candidates ops i op st.temps).map (fun c => c.1)
 
 theorem capDeps_not_input {g : Graph} {op : OpNode} {x : Nat} (h : x ∈ capDeps g op) :
     x ∉ opInputs op := by
@@ -337,19 +345,20 @@ theorem takeFacts' {V : Type} {ops : Ops V} {r : Run V} {st : St V} {i : Nat} {o
       st1.rc = st.rc ∧ st1.caps = st.caps ∧
       All₂ (fun c t => t.1 = c.1 ∧ st.rc c.2 = 1 ∧ st.temps c.2 = some t.2) tc taken ∧
       (∀ x, st1.temps x = if x ∈ tc.map (fun c => c.2) then none else st.temps x) ∧
-      (taken = [] → tc = []) := by
+      (taken = [] → tc = []) ∧ (tc = candidates ops i op st.temps ∨ tc = []) := by
     by_cases hcond : (!(candidates ops i op st.temps).isEmpty &&
         (candidates ops i op st.temps).all (fun c => canTake r st c.2) && !r.neverInPlace) = true
     · rw [if_pos hcond] at htake
       obtain ⟨ha, hcaps, hrc, htemps⟩ := takeAll_spec hc htake
-      refine ⟨candidates ops i op st.temps, fun c h => h, hrc, hcaps, ha, htemps, ?_⟩
+      refine ⟨candidates ops i op st.temps, fun c h => h, hrc, hcaps, ha, htemps, ?_, Or.inl rfl⟩
       intro ht; rw [ht] at ha; exact ha.nil_right
     · rw [if_neg hcond] at htake
       simp only [Option.some.injEq, Prod.mk.injEq] at htake
       obtain ⟨h1, h2⟩ := htake
-      refine ⟨[], by simp, by rw [← h1], by rw [← h1], by rw [← h2]; exact .nil, ?_, fun _ => rfl⟩
+      refine ⟨[], by simp, by rw [← h1], by rw [← h1], by rw [← h2]; exact .nil, ?_, fun _ => rfl,
+        Or.inr rfl⟩
       intro x; rw [← h1]; simp
-  obtain ⟨tc, htc, hrc1, hcaps1, ha, htemps1, htnil⟩ := h1
+  obtain ⟨tc, htc, hrc1, hcaps1, ha, htemps1, htnil, htcd⟩ := h1
   have hc1 : NoTake st1 := by intro v x b h; rw [hcaps1] at h; exact hc v x b h
   -- phase 2
   have h2 : st2.rc = st1.rc ∧ st2.caps = st1.caps ∧
@@ -386,7 +395,7 @@ theorem takeFacts' {V : Type} {ops : Ops V} {r : Run V} {st : St V} {i : Nat} {o
       refine ⟨rfl, h2, mem_opInputs (hcand c hcm).1, by rw [h3]; simp, c.1, ?_, (hcand c hcm).1⟩
       rw [List.mem_map]; exact ⟨t, ht, h1⟩
     · left; rfl
-  refine ⟨by rw [hrc2, hrc1], by rw [hcaps2, hcaps1], ?_, ?_, ?_, ?_, ?_, ?_, ?_⟩
+  refine ⟨by rw [hrc2, hrc1], by rw [hcaps2, hcaps1], ?_, ?_, ?_, ?_, ?_, ?_, ?_, ?_⟩
   · intro p v hpv
     obtain ⟨c, hcm, h1, h2, h3⟩ := ha.mem_right hpv
     simp only at h1
@@ -450,6 +459,13 @@ theorem takeFacts' {V : Type} {ops : Ops V} {r : Run V} {st : St V} {i : Nat} {o
       have hcm := htc c0 hc0
       unfold candidates at hcm
       simp [hidx] at hcm
+  · rcases htcd with h | h
+    · right
+      rw [← h]
+      exact ha.map_eq (fun c t hct => hct.1)
+    · left
+      rw [h] at ha
+      cases ha; rfl
 
 theorem takeFacts {V : Type} {ops : Ops V} {r : Run V} {st st' : St V} {i : Nat} {tr : StepTrace}
     (P : StepParts ops r st st' i tr) (hc : NoTake st) :
